@@ -1338,6 +1338,14 @@ func (e *Engine) entModset(callee *ssa.Function) ([]string, bool) {
 	if pos := callee.Pos(); pos.IsValid() && e.fset != nil && strings.HasSuffix(e.fset.Position(pos).Filename, "-addons.go") {
 		return nil, false
 	}
+	if callee.Signature.Recv() != nil {
+		if m := entRecvRe.FindStringSubmatch(typeKey(callee.Signature.Recv().Type())); m != nil && (m[2] == "Update" || m[2] == "UpdateOne") {
+			n := callee.Name()
+			if strings.HasPrefix(n, "Set") || strings.HasPrefix(n, "Clear") || strings.HasPrefix(n, "Add") {
+				return []string{"UB:*"}, true
+			}
+		}
+	}
 	switch strings.TrimSuffix(callee.Name(), "X") {
 	case "All", "Only", "First", "IDs", "Count", "Exist", "Scan", "Save", "Exec", "Get", "OnlyID", "FirstID":
 		return []string{"T:*", "S:dbfailed", "CB:*", "F:ent.*", "B:*", "E:*"}, true
